@@ -3,6 +3,7 @@
   of per-bound G2 elements, and the exact acceptance condition of a mislabelled degree bound.
 -/
 import PCV.Proofs.SonicExamples
+import PCV.Proofs.SonicBound
 
 namespace PCV.C04
 open PCV PCV.Sonic
@@ -148,5 +149,35 @@ example : relabelTerm Ex.vk.shiftD (some 2) 0 Ex.comms Ex.vals Ex.xis ≠ 0 ∧
 example : check Ex.vk (relabelAt 0 (some 1) Ex.comms) 5 Ex.vals Ex.proof Ex.xis
     = .error .unsupportedBound := by decide
 example : Ex.vk.shiftPower 3 = some (fpow (51 : K) (4 - 3) * 7) ∧ Ex.vk.shiftPower 1 = none := by decide
+
+/-- **"Accepted only if produced for a polynomial of degree ≤ d" (Sonic), the reduction.**  Keys made
+by `trim` from a trapdoor; an algebraic committer/prover: commitment `g·q(β)` for ANY coefficient list
+`q` over the published powers, witness `g·a(β)`.  If the commitment is accepted under the bound `d`,
+the trapdoor is a root of `ξ·q − X^{D−d}·(ξ·v + a·(X − z))`. -/
+theorem sonic_bound_forgery_root (g γ β bi h : F) (hb : β * bi = 1) (D s shb : Nat) (l : List Nat)
+    (ck : CK F) (vk : VK F) (ht : trim (wfPP g γ β bi h D) s shb (some l) = .ok (ck, vk))
+    (d : Nat) (hd : d ∈ l) (hg : g ≠ 0) (hh : h ≠ 0)
+    (lab : Marlin.Label) (q a : List F) (z v ξ : F) (ξs rest : List F)
+    (hacc : check vk [⟨lab, g * evalPoly q β, some d⟩] z [v] ⟨g * evalPoly a β, none⟩ (ξ :: ξs)
+      = .ok (true, rest)) :
+    evalPoly (boundExtract q a z v ξ (D - d)) β = 0 := by
+  obtain ⟨_, _, _, _, _, _, h7, _, h9, h10, _, _⟩ := trim_wf_basic g γ β bi h D s shb (some l) ck vk ht
+  obtain ⟨hσ, _, _⟩ := shiftOf_wf g γ β bi h D s shb l ck vk ht d hd
+  exact bounded_check_root vk g β bi h hb D d h7 h9 h10 hσ hg hh lab q a z v ξ ξs rest hacc
+
+/-- … and that polynomial is not zero when `q` is not `X^{D−d}·(polynomial)`: a non-zero coefficient
+of `q` below `X^{D−d}` (with `ξ ≠ 0`) is a non-zero coefficient of the extraction polynomial, whose
+roots are few.  So a commitment accepted under the bound `d` commits to `X^{D−d}·p` with `p` of degree
+at most `d` (it has at most `D+1` coefficients in all), unless the forger has found the trapdoor among
+the roots of a polynomial it knows. -/
+theorem sonic_degree_bound_sound (q a : List F) (z v ξ : F) (k : Nat) (hξ : ξ ≠ 0)
+    (hlow : ∃ i, i < k ∧ coeff q i ≠ 0) :
+    ∃ S : Finset F, S.card ≤ (boundExtract q a z v ξ k).length - 1 ∧
+      ∀ β, evalPoly (boundExtract q a z v ξ k) β = 0 → β ∈ S :=
+  bound_forgery_exceptional_set q a z v ξ k hξ hlow
+
+/-- non-vacuity: `q = 1 + X³` under `k = D − d = 1` has the low coefficient `1` -/
+example : coeff ([1, 0, 0, 1] : List K) 0 ≠ 0 ∧
+    coeff (boundExtract ([1, 0, 0, 1] : List K) [2] 5 7 11 1) 0 = 11 := by decide
 
 end PCV.C04
